@@ -561,6 +561,25 @@ func main() {
 				}
 			}
 		}
+		if phase > 0 {
+			// "framed with that size in that direction only": one CID registered in both directions with different
+			// sizes, one in a single direction; then commands of those CIDs in each direction, several times (a choice
+			// between the two registrations that is made per call must show up)
+			both, single := byte(0xe0+phase), byte(0xf0+phase)
+			su, sd := 1+r.Intn(5), 6+r.Intn(5)
+			registerOne(s, true, both, su)
+			registerOne(s, false, both, sd)
+			ss := 1 + r.Intn(8)
+			registerOne(s, phase%2 == 0, single, ss)
+			prop := func(c byte, n int) lorawan.Payload {
+				return &lorawan.MACCommand{CID: lorawan.CID(c), Payload: &lorawan.ProprietaryMACCommandPayload{Bytes: r.Bytes(n)}}
+			}
+			for k := 0; k < 6; k++ {
+				cmdsCase(s, r, true, []lorawan.Payload{prop(both, su), &lorawan.MACCommand{CID: lorawan.LinkCheckReq}, prop(both, su)}, "two-direction-sizes")
+				cmdsCase(s, r, false, []lorawan.Payload{prop(both, sd), &lorawan.MACCommand{CID: lorawan.DevStatusReq}}, "two-direction-sizes")
+				cmdsCase(s, r, phase%2 == 0, []lorawan.Payload{prop(single, ss), prop(single, ss)}, "one-direction-size")
+			}
+		}
 		histCase(s, fmt.Sprintf("phase=%d", phase))
 		for i := 0; i < nSeq/6; i++ {
 			up := r.Bool()
